@@ -189,46 +189,40 @@ def kani_env():
     return e
 
 
-def _run_chunk(ws, unit, hs, extra, ht):
-    cmd = kani_cmd(unit, [h['name'] for h in hs], jobs=1, extra=extra, harness_timeout=ht)
-    total_to = 900 + (ht + 30) * len(hs)
-    try:
-        p = subprocess.run(cmd, cwd=ws, capture_output=True, text=True, timeout=total_to, env=kani_env())
-        out = p.stdout + '\n' + p.stderr
-    except subprocess.TimeoutExpired as ex:
-        so = ex.stdout or ''
-        out = (so.decode('utf8', 'replace') if isinstance(so, bytes) else so) + '\nGLOBAL TIMEOUT'
-    return out, ' '.join(cmd)
-
-
 def run_harnesses(ws, unit, hs, jobs=8, extra=(), timeout=None):
-    """Run the harnesses in `jobs` parallel cargo-kani processes (each sequential: no interleaved output to parse)."""
-    from concurrent.futures import ThreadPoolExecutor
+    """One cargo-kani invocation (the crate is compiled once), harnesses verified by `-j jobs` Kani threads.
+    A harness whose result block cannot be found in the output is re-run alone (sequential fallback)."""
     ht = max(h.get('timeout', 300) for h in hs)
     t0 = time.time()
-    # longest-first round robin so that chunks have similar cost
-    order = sorted(hs, key=lambda h: -h.get('timeout', 300))
-    n = max(1, min(jobs, len(order)))
-    chunks = [order[i::n] for i in range(n)]
-    if n > 1:
-        # warm the dependency build once so that the parallel processes do not all wait on the cargo lock with a cold cache
-        _run_chunk(ws, unit, [], list(extra) + ['--only-codegen'], ht) if not os.path.isdir(os.path.join(CACHE, 'kani')) else None
-    with ThreadPoolExecutor(max_workers=n) as ex:
-        outs = list(ex.map(lambda c: _run_chunk(ws, unit, c, extra, ht), chunks))
+    cmd = kani_cmd(unit, [h['name'] for h in hs], jobs=min(jobs, len(hs)), extra=extra, harness_timeout=ht)
+    total_to = 1200 + (ht + 30) * (1 + len(hs) // max(1, min(jobs, len(hs))))
+    try:
+        p = subprocess.run(cmd, cwd=ws, capture_output=True, text=True, timeout=total_to, env=kani_env())
+        full = p.stdout + '\n' + p.stderr
+    except subprocess.TimeoutExpired as ex:
+        so = ex.stdout or ''
+        full = (so.decode('utf8', 'replace') if isinstance(so, bytes) else so) + '\nGLOBAL TIMEOUT'
+    blocks = split_blocks(full)
     res = {}
-    full = ''
-    for (out, cmd), chunk in zip(outs, chunks):
-        full += out + '\n'
-        blocks = split_blocks(out)
-        for h in chunk:
-            fq = unit.module + '::' + h['name']
-            b = blocks.get(fq)
-            r = parse_block(b) if b is not None else {'result': None, 'failed_checks': [], 'checks_total': None, 'checks_failed': None, 'time_s': None,
-                                                       'cover_sat': None, 'cover_total': None, 'unwind_failure': False, 'timed_out': False}
-            r['output'] = (b or out[-3000:])[-8000:]
-            res[h['name']] = r
-    cmd0 = outs[0][1] if outs else ''
-    return res, full, '%d parallel processes of: %s' % (n, cmd0), time.time() - t0, 0
+    missing = []
+    for h in hs:
+        fq = unit.module + '::' + h['name']
+        b = blocks.get(fq)
+        if b is None or (RES_RE.search(b) is None and 'CBMC' not in b):
+            missing.append(h)
+            continue
+        r = parse_block(b)
+        r['output'] = b[-8000:]
+        res[h['name']] = r
+    if missing and len(hs) > 1 and 'error: could not compile' not in full and 'internal compiler error' not in full:
+        for h in missing:
+            r1, out1, _, _, _ = run_harnesses(ws, unit, [h], jobs=1, extra=extra)
+            res[h['name']] = r1[h['name']]
+    else:
+        for h in missing:
+            res[h['name']] = {'result': None, 'failed_checks': [], 'checks_total': None, 'checks_failed': None, 'time_s': None,
+                              'cover_sat': None, 'cover_total': None, 'unwind_failure': False, 'timed_out': False, 'output': full[-3000:]}
+    return res, full, ' '.join(cmd)[:1500], time.time() - t0, 0
 
 
 def run_kani_unit(unit, repo, tier='quick', jobs=8, keep_ws=False, only=None, prop=None, known=None):
